@@ -457,6 +457,14 @@ func (w *World) rulePubKeyCacheProvenance(rule string) {
 			}
 			obj := render(fa.X)
 			val := stripConv(st.Val)
+			for d := 0; d < 3; d++ {
+				// a key built by a small worker the rules do not know (`sk.pk = publicKeyOf(&sk.scalar)`): the object it builds
+				if hv := helperValue(val); hv != nil {
+					val = stripConv(hv)
+					continue
+				}
+				break
+			}
 			al, isAl := val.(*ssa.Alloc)
 			if !isAl {
 				w.viol(rule, key, st.Pos(), "the public-key cache of `"+obj+"` is assigned `"+shortCond(render(val))+"`, a key that is not built here from that private key: PublicKey() would not be scalar·generator of this key in every call history")
@@ -517,5 +525,41 @@ func (w *World) rulePubKeyCacheProvenance(rule string) {
 	}
 	if n == 0 {
 		w.undecided(rule, "cache-stores", token.NoPos, "no store into a public-key cache found (anchors moved?)")
+	}
+}
+
+// ruleKeygenPure (C12.R8): key generation and decoding are functions of their arguments alone: the generatePrivateKey /
+// decodePrivateKey / decodePublicKey implementations (and what they call) write no memory that outlives the call — no
+// package-level variable, no field of the shared algorithm instance, no argument. A cache or lazily initialised constant
+// filled on the first call makes the first key of a process differ from the rest.
+func (w *World) ruleKeygenPure(rule string) {
+	ea := w.effects()
+	n := 0
+	for _, t := range w.implementors(rootPath, "signer", rootPath) {
+		for _, mn := range []string{"generatePrivateKey", "decodePrivateKey", "decodePublicKey", "decodePublicKeyCompressed"} {
+			f := w.method(t, mn)
+			if f == nil || f.Blocks == nil || isPanicStub(f) {
+				continue
+			}
+			n++
+			effs := ea.sharedWrites(f, 0, map[*ssa.Function]bool{})
+			seen := map[string]bool{}
+			bad := 0
+			for _, e := range effs {
+				desc := fmt.Sprintf("%s [%s]", e.What, rootDesc(e.Root))
+				if seen[desc] {
+					continue
+				}
+				seen[desc] = true
+				bad++
+				w.viol(rule, fnKey(f)+"/shared-write:"+shortWhat(e.What), e.Ins.Pos(), fnKey(f)+" writes memory that outlives the call: "+desc+" — its result can then depend on earlier calls")
+			}
+			if bad == 0 {
+				w.ok(rule, fnKey(f)+"/no-shared-write", f.Pos(), "writes only memory of its own activation")
+			}
+		}
+	}
+	if n == 0 {
+		w.undecided(rule, "anchor:signer", token.NoPos, "no signer implementation found")
 	}
 }
